@@ -68,6 +68,8 @@ def check(prog, run):
                     return "is:" + "|".join(names)
             return None
 
+        acc_names = {x.value.id for x in own_nodes(f.node) if isinstance(x, ast.Return) and isinstance(x.value, ast.Name)}
+
         def ev(n):
             if isinstance(n, ast.Call) and isinstance(n.func, ast.Name):
                 if n.func.id == "_skip_selection":
@@ -76,8 +78,9 @@ def check(prog, run):
                     return "applies"
                 if n.func.id == "_merge":
                     return "merge"
-            if isinstance(n, ast.Call) and isinstance(n.func, ast.Attribute) and n.func.attr == "append" and "grouped_fields" in ast.unparse(n.func.value):
-                return "add"
+            if isinstance(n, ast.Call) and isinstance(n.func, ast.Attribute) and n.func.attr == "append" \
+                    and any(isinstance(x, ast.Name) and x.id in acc_names for x in ast.walk(n.func.value)):
+                return "add"      # appended to a group of the accumulator (= the mapping the function returns)
             return None
         normal, _ = event_paths(None, ev, branch_event=bev, body=lp.body, may_raise=lambda n: None, cap=12)
         for seq in sorted(normal):
@@ -94,58 +97,61 @@ def check(prog, run):
                 run.report(r, key, f.where(lp), "a fragment's fields are merged without checking its type condition: %s" % list(seq))
             if kind and kind[-1] == "Field" and "merge" in act or (kind and kind[-1] != "Field" and "add" in act):
                 run.report(r, key, f.where(lp), "wrong accumulation for selection kind %s: %s" % (kind[-1], list(seq)))
-        # truth tables of the `continue` conditions
-        for n in ast.walk(lp):
-            if isinstance(n, ast.If) and len(n.body) == 1 and isinstance(n.body[0], ast.Continue):
-                # which branch?
-                kind = None
-                cur = n
-                while getattr(cur, "_parent", None) is not None and cur is not lp:
-                    par = cur._parent
-                    if isinstance(par, ast.If) and cur in par.body:
-                        for names, _ in shapes.class_tests(par.test, var):
-                            kind = names[0]
-                    cur = par
-                if kind is None:
-                    continue
-
-                def roles_of(node, a):
-                    if isinstance(node, ast.Call) and isinstance(node.func, ast.Name) and node.func.id == "_skip_selection":
-                        return ("skip", True)
-                    if isinstance(node, ast.Call) and isinstance(node.func, ast.Name) and node.func.id == "_fragment_type_applies":
-                        return ("applies", True)
-                    if isinstance(node, ast.Compare) and isinstance(node.ops[0], ast.In) and "_seen_fragments" in a:
-                        return ("seen", True)
-                    return None
-                try:
-                    roles = _role_atoms(n.test, roles_of)
-                except AnalysisError as e:
-                    raise AnalysisError("C04.K2 %s: %s" % (fname, e))
-                vars_ = sorted({v for v, _ in roles.values()})
-                if kind == "Field":
-                    want = lambda e: e.get("skip", False)
-                    need = {"skip"}
-                elif kind == "InlineFragment":
-                    want = (lambda e: e["skip"] or not e["applies"]) if typed else (lambda e: e["skip"])
-                    need = {"skip", "applies"} if typed else {"skip"}
-                else:
-                    want = (lambda e: e["skip"] or e["seen"] or not e["applies"]) if typed else (lambda e: e["skip"] or e["seen"])
-                    need = {"skip", "seen", "applies"} if typed else {"skip", "seen"}
-                r.instance("%s: %s skip condition `%s`" % (fname, kind, boolx.text(n.test)))
-                if set(vars_) != need:
-                    run.report(r, "%s:%s:skip-condition(%s)" % (CF, fname, kind), f.where(n),
-                               "the skip condition for %s consults %s, expected %s" % (kind, sorted(vars_), sorted(need)))
-                    continue
-                bad = _table_check(n.test, roles, want, vars_)
-                if bad:
-                    run.report(r, "%s:%s:skip-condition(%s)" % (CF, fname, kind), f.where(n),
-                               "the skip condition for %s has the wrong truth table: %s" % (kind, bad[:3]), {"rows": bad})
-        # grouping key
-        keys = [n for n in ast.walk(lp) if isinstance(n, ast.Assign) and ast.unparse(n.targets[0]) == "key"]
-        r.instance("%s group key `%s`" % (fname, norm_stmt(keys[0]) if keys else None))
-        if not keys or ast.unparse(keys[0].value) != "%s.response_name" % var:
+        # truth tables of the skip conditions, in path form: for each selection kind and each assignment of
+        # (skipped by directives, type condition applies, fragment already seen) the iteration either collects the
+        # selection (an add/merge event happens) or does not — whatever the shape of the tests and `continue`s
+        from .. import dispatch
+        hier = dispatch.Hierarchy(prog)
+        body_fn = boolx.body_function(lp.body)
+        for kind_name in ("Field", "InlineFragment", "FragmentSpread"):
+            bad, rows = [], 0
+            for skip in (False, True):
+                for applies in (False, True):
+                    for seen in (False, True):
+                        def extra(t, skip=skip, applies=applies, seen=seen):
+                            if t.startswith("_skip_selection("):
+                                return skip
+                            if t.startswith("_fragment_type_applies("):
+                                return applies
+                            if t.endswith(" in _seen_fragments"):
+                                return seen
+                            return None
+                        try:
+                            _ev, bexits = boolx.walk_under(body_fn, dispatch.decide_for(hier, var, kind_name, extra))
+                        except ValueError as e:
+                            raise AnalysisError("C04.K2 %s: %s" % (fname, e))
+                        outcomes = set()
+                        for k_, st_, env_ in bexits:
+                            if any(h.type is not None and "KeyError" in ast.unparse(h.type) for h in env_.get(boolx.HANDLERS, ())):
+                                continue      # the spread names an unknown fragment: nothing to collect
+                            collected_ = any(ev(c) in ("add", "merge") for c in env_.get(boolx.CALLS, ()))
+                            outcomes.add(collected_)
+                        if kind_name == "Field":
+                            want = not skip
+                        elif kind_name == "InlineFragment":
+                            want = (not skip and applies) if typed else (not skip)
+                        else:
+                            want = (not skip and not seen and applies) if typed else (not skip and not seen)
+                        rows += 1
+                        if outcomes != {want}:
+                            bad.append({"skip": skip, "applies": applies, "seen": seen, "collected": sorted(outcomes), "expected": want})
+            r.instance("%s: %s skip table (%d rows), %d wrong" % (fname, kind_name, rows, len(bad)))
+            if bad:
+                run.report(r, "%s:%s:skip-condition(%s)" % (CF, fname, kind_name), f.where(lp),
+                           "the skip condition for %s has the wrong truth table: %s" % (kind_name, bad[:3]), {"rows": bad})
+        # grouping key and accumulator, by data flow: the accumulator is what the function returns; every subscript of it
+        # inside the loop is keyed (through locals) by <selection>.response_name
+        from ..canon import Canon
+        fcn = Canon(f.node)
+        accs = {n.value.id for n in own_nodes(f.node) if isinstance(n, ast.Return) and isinstance(n.value, ast.Name)}
+        shapes.require(len(accs) == 1, "C04.K2: %s does not return a single accumulator variable" % fname)
+        accn = accs.pop()
+        subs = [n for n in ast.walk(lp) if isinstance(n, ast.Subscript) and isinstance(n.value, ast.Name) and n.value.id == accn]
+        ktexts = sorted({fcn.text(n.slice) for n in subs})
+        r.instance("%s group key(s) %s" % (fname, ktexts))
+        if ktexts != ["%s.response_name" % var]:
             run.report(r, "%s:%s:group-key" % (CF, fname), f.where(lp), "fields are not grouped under selection.response_name")
-        acc = [n for n in f.node.body if isinstance(n, ast.Assign) and ast.unparse(n.targets[0]) == "grouped_fields"]
+        acc = [n for n in f.node.body if isinstance(n, ast.Assign) and ast.unparse(n.targets[0]) == accn]
         if not acc or "OrderedDict" not in ast.unparse(acc[0].value) and ast.unparse(acc[0].value) not in ("{}", "dict()"):
             run.report(r, "%s:%s:accumulator" % (CF, fname), f.where(), "grouped fields are not accumulated in an insertion-ordered mapping")
     fld = prog.get_class("py_gql.lang.ast", "Field")
@@ -210,38 +216,51 @@ def check(prog, run):
     # _fragment_type_applies
     fa = prog.get_func(CF, "_fragment_type_applies")
     run.looked_at(fa)
-    rets = [n for n in own_nodes(fa.node) if isinstance(n, ast.Return)]
-    r.instance("_fragment_type_applies returns %s" % [boolx.text(x.value) for x in rets])
-    early = [x for x in rets if isinstance(x.value, ast.Constant) and x.value.value is True]
-    main = [x for x in rets if not isinstance(x.value, ast.Constant)]
-    if len(early) != 1 or len(main) != 1:
-        run.report(r, "%s:_fragment_type_applies:shape" % CF, fa.where(), "expected `return True` without type condition and one computed return")
-    else:
-        g = early[0]._parent
-        if not (isinstance(g, ast.If) and boolx.text(g.test) in ("not type_condition", "type_condition is None")):
-            run.report(r, "%s:_fragment_type_applies:no-condition" % CF, fa.where(g), "fragments apply unconditionally under `%s`" % (boolx.text(g.test) if isinstance(g, ast.If) else "?"))
-        expr = main[0].value
-
-        def roles_of(node, a):
-            if isinstance(node, ast.Compare) and isinstance(node.ops[0], ast.Eq) and {ast.unparse(node.left), ast.unparse(node.comparators[0])} == {"fragment_type", "object_type"}:
-                return ("same", True)
-            if isinstance(node, ast.Compare) and isinstance(node.ops[0], ast.Is) and {ast.unparse(node.left), ast.unparse(node.comparators[0])} == {"fragment_type", "object_type"}:
-                return ("same", True)
-            if isinstance(node, ast.Call) and ast.unparse(node.func) == "isinstance" and ast.unparse(node.args[0]) == "fragment_type" and "GraphQLAbstractType" in ast.unparse(node.args[1]):
-                return ("abstract", True)
-            if isinstance(node, ast.Call) and ast.unparse(node.func) == "schema.is_possible_type":
-                if [ast.unparse(x) for x in node.args] != ["fragment_type", "object_type"]:
-                    raise AnalysisError("is_possible_type called with %s" % [ast.unparse(x) for x in node.args])
-                return ("possible", True)
-            return None
-        try:
-            roles = _role_atoms(expr, roles_of)
-            bad = _table_check(expr, roles, lambda e: e["same"] or (e["abstract"] and e["possible"]), ["same", "abstract", "possible"])
-            if bad:
-                run.report(r, "%s:_fragment_type_applies:truth-table" % CF, fa.where(main[0]),
-                           "the type-condition test `%s` differs from same-type or (abstract and possible type): %s" % (boolx.text(expr), bad[:2]))
-        except AnalysisError as e:
-            run.report(r, "%s:_fragment_type_applies:arguments" % CF, fa.where(main[0]), "type-condition test: %s" % e)
+    # path form: (has a type condition, same type, abstract, possible) -> applies; the local holding the resolved
+    # fragment type is found by data flow (bound to get_type_from_literal(...)), parameters keep their names
+    ftv = [n.targets[0].id for n in own_nodes(fa.node) if isinstance(n, ast.Assign) and len(n.targets) == 1 and isinstance(n.targets[0], ast.Name)
+           and isinstance(n.value, ast.Call) and isinstance(n.value.func, ast.Attribute) and n.value.func.attr == "get_type_from_literal"]
+    shapes.require(len(ftv) == 1, "C04.K2: _fragment_type_applies no longer resolves the type condition with get_type_from_literal")
+    ftn = ftv[0]
+    objp, fragp = fa.params[1], fa.params[2]
+    bad, rows = [], 0
+    for has_cond in (False, True):
+        for same in (False, True):
+            for abstract in (False, True):
+                for possible in (False, True):
+                    def decide(t, has_cond=has_cond, same=same, abstract=abstract, possible=possible):
+                        tt = t.replace(" ", "")
+                        if tt == "%s.type_condition" % fragp:
+                            return has_cond
+                        if tt == "%s.type_conditionisNone" % fragp:
+                            return not has_cond
+                        if tt in ("%s==%s" % (ftn, objp), "%s==%s" % (objp, ftn), "%sis%s" % (ftn, objp), "%sis%s" % (objp, ftn)):
+                            return same
+                        if tt.startswith("isinstance(%s," % ftn) and "GraphQLAbstractType" in tt:
+                            return abstract
+                        if tt.endswith(".is_possible_type(%s,%s)" % (ftn, objp)):
+                            return possible
+                        if "is_possible_type(" in tt:
+                            raise AnalysisError("is_possible_type called with other arguments: %s" % t)
+                        return None
+                    try:
+                        got = boolx.returned_truths(fa.node, decide)
+                    except ValueError as e:
+                        raise AnalysisError("C04.K2: _fragment_type_applies: %s" % e)
+                    except AnalysisError as e:
+                        run.report(r, "%s:_fragment_type_applies:arguments" % CF, fa.where(), "type-condition test: %s" % e)
+                        got = None
+                    if got is None:
+                        break
+                    want = (not has_cond) or same or (abstract and possible)
+                    rows += 1
+                    if got != {want}:
+                        bad.append({"has_condition": has_cond, "same": same, "abstract": abstract, "possible": possible, "returns": sorted(map(str, got)), "expected": want})
+    r.instance("_fragment_type_applies truth table (%d rows), %d wrong" % (rows, len(bad)))
+    if bad:
+        key = "no-condition" if any(not b["has_condition"] for b in bad) and all(not b["has_condition"] or b["returns"] == [str(b["expected"])] for b in bad) else "truth-table"
+        run.report(r, "%s:_fragment_type_applies:%s" % (CF, key), fa.where(),
+                   "the type-condition test differs from (no type condition) or same-type or (abstract and possible type): %s" % bad[:2])
 
     # ---- K3 complete_value dispatch
     r = run.rule("K3", "complete_value handles NonNull before the null short-cut, then List, Scalar, Enum and composite types, "
@@ -322,6 +341,11 @@ def check(prog, run):
         run.report(r, "%s:Executor.complete_value:no-final-error" % EXE, cv.where(silent[0][1]) if silent and silent[0][1] is not None else cv.where(),
                    "unknown type kinds fall through silently")
 
+    # the local that receives resolve_type(...)'s result, whatever it is called
+    rt_names = {t.id for n in own_nodes(cv.node) if isinstance(n, ast.Assign) and isinstance(n.value, ast.Call)
+                and isinstance(n.value.func, ast.Attribute) and n.value.func.attr == "resolve_type"
+                for t in n.targets if isinstance(t, ast.Name)}
+
     def aev(n):
         if isinstance(n, ast.Call) and isinstance(n.func, ast.Attribute):
             if n.func.attr == "resolve_type":
@@ -331,7 +355,7 @@ def check(prog, run):
             if n.func.attr == "execute_fields":
                 return "execute_fields"
         if isinstance(n, ast.Call) and isinstance(n.func, ast.Name) and n.func.id == "isinstance" and len(n.args) == 2 \
-                and ast.unparse(n.args[0]) == "runtime_type" and "ObjectType" in ast.unparse(n.args[1]):
+                and isinstance(n.args[0], ast.Name) and n.args[0].id in rt_names and "ObjectType" in ast.unparse(n.args[1]):
             return "object?"
         return None
 
